@@ -1,6 +1,8 @@
 import AcraModel.Sql.Shape
 import AcraModel.Sql.GoNum
 import AcraModel.Sql.LogModel
+import AcraModel.Sql.LogSites
+import AcraModel.Sql.ErrText
 /-! Driver ops for C16 (redaction). Trees travel as token lists (`Sql.render` / `Sql.parseTreeAll`). -/
 namespace Driver.C16
 open AcraModel AcraModel.Sql
@@ -57,6 +59,23 @@ def handle (op : String) (args : List String) : Option String :=
   | "bindvars", toks => do
       let t ← parseTreeAll toks
       pure ("ok " ++ ",".intercalate ((bindvars t).map hexOf))
+  | "numerr", [_fn, _bits, _value, "none"] => pure "noerr"
+  | "numerr", [fn, _bits, _value, cause] => do
+      let c ← match cause with
+        | "syntax" => some ErrText.Cause.syntax | "range" => some ErrText.Cause.range | _ => none
+      pure ("ok " ++ hexOf ((ErrText.withoutValue ⟨fn, "", c⟩).toUTF8.toList))
+  | "pgerr", [_stmt, raw, pos] =>
+      if raw == "-" then pure "parsed" else do
+        let m ← ofHex raw
+        let chars := m.map fun b => Char.ofNat b.toNat
+        let out := ErrText.pgError chars pos.toNat!
+        pure ("ok " ++ hexOf (out.map fun c => UInt8.ofNat c.toNat))
+  | "logsite", [level, msg] => do
+      let m ← ofHex msg
+      let text := String.mk (m.map fun b => Char.ofNat b.toNat)
+      match LogSites.sitesOf level text with
+      | [] => pure "unknown"
+      | ss => pure ("known " ++ toString ss.length ++ " " ++ ",".intercalate (ss.map fun s => s.1 ++ ":" ++ s.2))
   | "shape", toks => do
       let t ← parseTreeAll toks
       pure ("ok " ++ renderStr (shape t))
